@@ -1,46 +1,154 @@
 """C04 - every reported entry is backed by the inputs (default alignment mode).
 
-proof:           Diff/DiffFaithful.v -> Properties/C04.v (all values, every opcode oracle)
+proof:           Diff/DiffFaithful.v, TextFaithful.v, FaithfulShape.v, FaithfulSource.v, FaithfulExact.v,
+                 FaithfulMemo.v -> Properties/C04.v (all values, every opcode oracle; K17 / K18 characterised exactly)
 correspondence:  tree-view result (kind, both key sequences, both leaf objects, diff
-                 text) + recorded-opcode paths of DeepDiff in default mode vs the model
+                 text) + recorded-opcode paths of DeepDiff in default mode vs the model; pairs whose sets hold
+                 ==-aliased members against the model with DeepDiff's run-wide table (Diff/DiffMemo.v);
+                 removes_at / adds_at of the difflib opcodes (the vocabulary of C04_K17_exact) against the
+                 Python reading the K17 / K18 matchers use; the entry-local guard of C04_text_*_local
 direct oracle:   the property itself on the text view with deepdiff.extract
 """
+import base64
 import copy
+import difflib
+import pickle
+import re
 
 from harness import core, values as V, diffcommon as D
 
 THEOREM_FILE = "Properties/C04.v"
 COQCHK = ["Properties.C04"]
 RULE = ("pairs: (a) lists over a 4-atom alphabet, length <= 12, related by insert/delete/replace/move/duplicate/rotate edits, planted under 0-2 "
-        "common container levels; (a') dicts with 4-8 common keys inserted in different orders, and t2 with all dicts rebuilt in shuffled insertion order (20%); (b) random nested values and edit scripts (1-3 edits); x verbose {1,2} x threshold {0,0.33,0.9}, default "
+        "common container levels; (a') dicts with 4-8 common keys inserted in different orders, and t2 with all dicts rebuilt in shuffled insertion order (20%); (b) random nested values and edit scripts (1-3 edits); (c) pairs with one to three set / frozenset pairs holding ==-aliased numbers (1 / True / 1.0 ...) at list positions, dict values or nested (5%); "
+        "one container object at two positions of t1 in 15% + a dedicated 4% stream; x verbose {1,2} x threshold {0,0.33,0.9}, default "
         "alignment (zip_ordered_iterables=False). Non-trivial = the diff is non-empty; distinct by (t1, t2).")
 TRUSTED = ["difflib.SequenceMatcher opcodes are an oracle: the theorems hold for EVERY opcode list, the correspondence feeds the model the opcodes difflib returns",
-           "DeepHash of set members is replaced by an injective stand-in in the model (inputs with == atoms of different type or tag-like strings inside sets are outside the correspondence; finding K1)",
+           "DeepHash of set members: HashModel.hash_atom with the injective hex hasher in place of SHA-256 (same equality pattern assumed); pairs whose sets hold == atoms of different type are compared with the table-threaded model Diff/DiffMemo.v run_diff_m (C04_with_table_*), all others with the memo-free model",
            "values are tree-shaped (no shared mutable containers), floats are half-integers, no bytes dict keys (finding F5)"]
 ASSUMPTIONS = ["threshold_to_diff_deeper <= 1", "dict/set inputs satisfy Python's representation invariant (keys pairwise !=)"]
 
 THRS = (0, 0.33, 0.9)
 
 
+# ---------------------------------------------------------------------------
+# the shapes of C04_K17_exact / C04_K18_exact, read off difflib's opcodes in Python
+# (compared with Diff/FaithfulSource.v removes_at / adds_at inside Coq on every run: stream "marks")
+# ---------------------------------------------------------------------------
+
+def py_removes_at(ops, i):
+    """some block removes t1 index i: inside a 'delete' block, or in the surplus of the t1 chunk of a 'replace' block"""
+    return any((tag == "delete" and i1 <= i < i2) or (tag == "replace" and i1 + (j2 - j1) <= i < i2)
+               for tag, i1, i2, j1, j2 in ops)
+
+
+def py_adds_at(ops, i):
+    """some block adds t2 index i: inside an 'insert' block, or in the surplus of the t2 chunk of a 'replace' block"""
+    return any((tag == "insert" and j1 <= i < j2) or (tag == "replace" and j1 + (i2 - i1) <= i < j2)
+               for tag, i1, i2, j1, j2 in ops)
+
+
+_LAST_IDX = re.compile(r"^(.*)\[(\d+)\]$")
+
+
+def parent_lists(t1, t2, path):
+    """(parent path string, index, the two all-atom sequences of one type that t1 / t2 hold there) or None"""
+    from deepdiff import extract
+    m = _LAST_IDX.match(path)
+    if not m:
+        return None
+    parent, i = m.group(1), int(m.group(2))
+    try:
+        a, b = extract(t1, parent), extract(t2, parent)
+    except Exception:
+        return None
+    if not (type(a) is type(b) and isinstance(a, (list, tuple)) and D.all_atoms(a) and D.all_atoms(b)):
+        return None
+    return parent, i, a, b
+
+
+def recorded_paths(t1, t2, thr):
+    """keys of _iterable_opcodes: the lists on which the opcode replay won"""
+    from deepdiff import DeepDiff
+    r = DeepDiff(copy.deepcopy(t1), copy.deepcopy(t2), view="tree", threshold_to_diff_deeper=thr)
+    return set(r._iterable_opcodes.keys())
+
+
+def k17_shape(t1, t2, path, thr, old, new):
+    """C04_K17_exact, right-hand side: the parent is a pair of all-atom sequences whose opcodes were recorded,
+    a block removes t1 index i, a block adds t2 index i, t1[parent][i] == t2[parent][i], and these two items
+    are what is reported"""
+    pl = parent_lists(t1, t2, path)
+    if pl is None:
+        return False
+    parent, i, a, b = pl
+    ops = difflib.SequenceMatcher(isjunk=None, a=a, b=b, autojunk=False).get_opcodes()
+    return bool(i < len(a) and i < len(b) and py_removes_at(ops, i) and py_adds_at(ops, i) and a[i] == b[i]
+                and V.typed_eq(a[i], old) and V.typed_eq(b[i], new) and parent in recorded_paths(t1, t2, thr))
+
+
+def k18_shape(t1, t2, path, new_path, old, new):
+    """C04_K18_exact, right-hand side: the entry is the k-th compared pair of a 'replace' block whose chunks
+    start at different indexes (path = parent[i1+k], new_path of the verbose_level=2 run = parent[j1+k]), the two
+    items are not ==, and t2 does not hold the reported new value at the t1 index"""
+    pl = parent_lists(t1, t2, path)
+    m = _LAST_IDX.match(new_path or "")
+    if pl is None or not m or m.group(1) != pl[0]:
+        return False
+    parent, i, a, b = pl
+    j = int(m.group(2))
+    ops = difflib.SequenceMatcher(isjunk=None, a=a, b=b, autojunk=False).get_opcodes()
+    for tag, i1, i2, j1, j2 in ops:
+        k = i - i1
+        if (tag == "replace" and i1 != j1 and 0 <= k < min(i2 - i1, j2 - j1) and j == j1 + k
+                and V.typed_eq(a[i], old) and V.typed_eq(b[j], new) and not (a[i] == b[j])
+                and not (i < len(b) and V.typed_eq(b[i], new))):
+            return True
+    return False
+
+
 def k17(case):
     """values_changed with identical old and new value at a list index (made by
-    mutual_add_removes from an add and a remove at one path, default mode)"""
-    return case.get("clause") == "changed value does not differ" and case.get("parent_is_sequence") and not case.get("zip")
+    mutual_add_removes from an add and a remove at one path, default mode).  Matcher audit: (a) the failing
+    clause is "really differ" and nothing else (check_entries reaches it only after both sides resolved),
+    (b)+(c) the input and the entry have the shape of C04_K17_exact (recomputed from difflib in k17_shape)."""
+    return (case.get("clause") == "changed value does not differ" and case.get("category") == "values_changed"
+            and not case.get("zip") and case.get("k17_shape") is True)
 
 
 def k18(case):
     """verbose_level=1 omits new_path: the new value sits at another index of t2
-    (the verbose_level=2 result gives the new_path and it resolves)"""
+    (the verbose_level=2 result gives the new_path and it resolves).  Matcher audit: (a) the clause is the
+    t2-side resolution at verbose_level=1 of a values_changed / type_changes entry, (b)+(c) the entry is a
+    shifted pair of a 'replace' block as in C04_K18_exact (k18_shape) and the verbose_level=2 run of the same
+    call carries a new_path that resolves to the reported value."""
     return (case.get("clause") == "new value does not resolve in t2" and case.get("verbose_level") == 1
-            and not case.get("zip") and case.get("verbose2_new_path_resolves") is True)
+            and case.get("category") in ("values_changed", "type_changes")
+            and not case.get("zip") and case.get("verbose2_new_path_resolves") is True and case.get("k18_shape") is True)
 
 
 MATCHERS = {"K17": k17, "K18": k18}
 
 
-def check_entries(ctx, t1, t2, res, verbose, cfg):
-    """the property on a text-view result"""
+def check_entries(ctx, t1, t2, res, verbose, cfg, skip=None):
+    """the property on a text-view result; with `skip`, only on the entries whose path it does not reject
+    (C04_text_entries_faithful_local: an entry whose own path keys satisfy C09's guard is faithful whatever
+    other keys the inputs hold)"""
     from deepdiff import extract
+    if skip is not None:
+        kept = {}
+        for cat, items in res.items():
+            if isinstance(items, dict):
+                kept[cat] = {p: v for p, v in items.items() if not skip(p)}
+            else:
+                try:
+                    kept[cat] = [p for p in items if not skip(p)]
+                except TypeError:
+                    kept[cat] = items
+        ctx.count("local_guard_stream:entries checked", sum(len(v) for v in kept.values() if hasattr(v, "__len__")))
+        ctx.count("local_guard_stream:entries skipped (hostile key on their own path)",
+                  sum(len(v) for v in res.values() if hasattr(v, "__len__")) - sum(len(v) for v in kept.values() if hasattr(v, "__len__")))
+        res = kept
 
     def ex(obj, path):
         try:
@@ -58,18 +166,30 @@ def check_entries(ctx, t1, t2, res, verbose, cfg):
     def bad(clause, path, **extra):
         case = dict(t1=repr(t1), t2=repr(t2), clause=clause, path=path, verbose_level=verbose, **cfg)
         case.update(extra)
+        try:
+            if pickle.dumps((t1, t2)) != pickle.dumps(eval(repr((t1, t2)))):
+                # the same container object at several positions: repr does not determine the inputs
+                case["pickle"] = base64.b64encode(pickle.dumps((t1, t2))).decode("ascii")
+        except Exception:
+            case["pickle"] = base64.b64encode(pickle.dumps((t1, t2))).decode("ascii")
         ctx.fail(case, "entry not backed by the inputs: %s at %s" % (clause, path))
 
-    def v2_resolves(path, new_value, cat):
+    def v2_info(path, new_value, cat):
+        """(does the verbose_level=2 run of the same call carry a new_path that resolves to new_value, that new_path)"""
         if verbose != 1:
-            return False
+            return False, None
         from deepdiff import DeepDiff
         r2 = DeepDiff(copy.deepcopy(t1), copy.deepcopy(t2), threshold_to_diff_deeper=cfg["thr"], verbose_level=2)
         ch2 = r2.get(cat, {}).get(path)
         if not ch2 or "new_path" not in ch2:
-            return False
+            return False, None
         ok, v = ex(t2, ch2["new_path"])
-        return ok and V.typed_eq(v, new_value)
+        return bool(ok and V.typed_eq(v, new_value)), ch2["new_path"]
+
+    def bad_new(path, ch, cat):
+        res_ok, np2 = v2_info(path, ch["new_value"], cat)
+        bad("new value does not resolve in t2", path, category=cat, verbose2_new_path_resolves=res_ok, verbose2_new_path=np2,
+            k18_shape=k18_shape(t1, t2, path, np2, ch["old_value"], ch["new_value"]))
 
     def parent_is_seq(path):
         # crude: path ends with [<int>]
@@ -82,16 +202,17 @@ def check_entries(ctx, t1, t2, res, verbose, cfg):
         if not (ok1 and teq(a, ch["old_value"])):
             bad("old value does not resolve in t1", p)
         elif not (ok2 and teq(b, ch["new_value"])):
-            bad("new value does not resolve in t2", p, verbose2_new_path_resolves=v2_resolves(p, ch["new_value"], "values_changed"))
+            bad_new(p, ch, "values_changed")
         elif not (ch["old_value"] != ch["new_value"]):
-            bad("changed value does not differ", p, parent_is_sequence=parent_is_seq(p))
+            bad("changed value does not differ", p, category="values_changed", parent_is_sequence=parent_is_seq(p),
+                k17_shape=k17_shape(t1, t2, p, cfg["thr"], ch["old_value"], ch["new_value"]))
     for p, ch in res.get("type_changes", {}).items():
         ok1, a = ex(t1, p)
         ok2, b = ex(t2, ch.get("new_path", p))
         if not (ok1 and teq(a, ch["old_value"])):
             bad("old value does not resolve in t1", p)
         elif not (ok2 and teq(b, ch["new_value"])):
-            bad("new value does not resolve in t2", p, verbose2_new_path_resolves=v2_resolves(p, ch["new_value"], "type_changes"))
+            bad_new(p, ch, "type_changes")
         elif type(ch["old_value"]) is type(ch["new_value"]) or ch["old_type"] is not type(ch["old_value"]) or ch["new_type"] is not type(ch["new_value"]):
             bad("type change without a change of type", p)
     for cat, here, there in (("iterable_item_added", t2, None), ("iterable_item_removed", t1, None),
@@ -131,7 +252,104 @@ def py_keys_ok(v):
     return True
 
 
-GUARD_HDR = D.MODEL_HDR + "\nFrom DD Require Import Diff.TextFaithfulShow."
+GUARD_HDR = D.MODEL_HDR + "\nFrom DD Require Import Diff.TextFaithfulShow Diff.FaithfulShow."
+MEMO_HDR = D.MODEL_HDR_M + "\nFrom DD Require Import Diff.TextFaithfulShow Diff.FaithfulShow."
+ALIAS_POOL = [0, False, 0.0, 1, True, 1.0, 2, 2.0, "a", None, 3]
+
+
+def py_path_ok(cp):
+    """harness reading of Path/PathModel.path_ok on a canonical path (C09's guard on the keys of ONE path)"""
+    for tag, x in cp:
+        if tag != "k":
+            continue
+        k = D.uncanon_atom(x)
+        if isinstance(k, str) and (("'" in k and '"' in k) or k.endswith(chr(119232))):
+            return False
+        if isinstance(k, float) and not abs(k) < 2 ** 53:
+            return False
+        if isinstance(k, bytes) and (not all(32 <= ch <= 126 and ch != 92 for ch in k) or (b"'" in k and b'"' in k)):
+            return False
+    return True
+
+
+def gen_set_alias_pair(rng):
+    """one to three set / frozenset pairs whose members are ==-aliased across (or inside) the pair, at list
+    positions, dict values (t2's key order shuffled) or nested: DeepDiff's run-wide ==-keyed DeepHash table
+    decides what is reported; whatever it is must be backed by the inputs"""
+    def aset():
+        out = set()
+        for a in rng.sample(ALIAS_POOL, rng.randint(0, 3)):
+            if all(not (a == b) for b in out):
+                out.add(a)
+        return frozenset(out) if rng.random() < 0.25 else out
+    def aliases(x):
+        return [c for c in ([int(x), float(x)] + ([bool(x)] if x in (0, 1) else [])) if type(c) is not type(x)]
+    k = rng.choice([1, 2, 2, 3])
+    pairs = []
+    for _i in range(k):
+        a = aset()
+        b = aset() if rng.random() < 0.7 else type(a)(a)
+        if type(a) is not type(b) and rng.random() < 0.8:
+            b = type(a)(b)
+        if rng.random() < 0.6:
+            # make sure some member of b is an alias (==, other type) of a member of a
+            nums = [x for x in a if type(x) in (int, bool, float)]
+            if nums:
+                x = rng.choice(nums)
+                y = rng.choice(aliases(x))
+                b = type(b)([m for m in b if not (m == y)] + [y])
+        pairs.append((a, b))
+    shape = rng.choice(["list", "dict", "dict", "nested", "tuple", "with_list"])
+    if k == 1 and rng.random() < 0.4:
+        return pairs[0]
+    if shape == "list":
+        return [a for a, _ in pairs], [b for _, b in pairs]
+    if shape == "tuple":
+        return tuple(a for a, _ in pairs), tuple(b for _, b in pairs)
+    if shape == "with_list":
+        # an all-atom list with aliased atoms next to the sets: both code paths in one run
+        x, y, _kinds = V.gen_atom_list_pair(rng, alphabet=[1, True, 1.0, 2])
+        return {"s": pairs[0][0], "l": x}, {"l": y, "s": pairs[0][1]}
+    keys = rng.sample(["x", "y", "z", 1, None], k)
+    order2 = list(range(k))
+    rng.shuffle(order2)
+    t1 = {keys[i]: pairs[i][0] for i in range(k)}
+    t2 = {keys[i]: pairs[i][1] for i in order2}
+    if shape == "nested":
+        return [0, {"d": t1}], [0, {"d": t2}]
+    return t1, t2
+
+
+HOSTILE = "HOSTILE"
+HOSTILE_KEYS = [HOSTILE + "'\"", "\"" + HOSTILE + "'s", HOSTILE + chr(119232)]
+
+
+def hostile_path(p):
+    return HOSTILE in p
+
+
+def gen_hostile_pairs(ctx, n):
+    """a dict key that does not round-trip through a path string (C09 findings K5 / K6: both quote characters, or
+    the parser's escape character last) somewhere in the inputs, changes below it AND elsewhere: the whole-input
+    guard keys_ok of C04_text_entries_faithful fails, the entry-local guard of C04_text_entries_faithful_local
+    holds for the entries elsewhere - those are checked by the direct oracle, the others only compared with the model"""
+    rng = ctx.rng
+    out = []
+    for _ in range(n):
+        a, b, _kinds = V.gen_atom_list_pair(rng)
+        hk = rng.choice(HOSTILE_KEYS)
+        v1 = V.gen_value(rng, 2, 3)
+        v2 = V.edit_script(rng, v1, 1)[0][-1] if rng.random() < 0.7 else v1
+        shape = rng.choice(["top", "nested", "list"])
+        if shape == "top":
+            t1, t2 = {hk: v1, "ok": a, "d": {"k": 1, "gone": 0}}, {"ok": b, hk: v2, "d": {"k": 2, "new": 0}}
+        elif shape == "nested":
+            t1, t2 = {"x": {hk: v1, "l": a}, "y": 1}, {"x": {hk: v2, "l": b}, "y": "1"}
+        else:
+            t1, t2 = [a, {hk: v1}, 0], [b, {hk: v2}, 1]
+        out.append((t1, t2))
+        ctx.count("gen:hostile_key_elsewhere")
+    return out
 
 
 def gen_pairs(ctx, n):
@@ -182,16 +400,19 @@ def gen_pairs(ctx, n):
             ctx.count("gen:atom_list_edit")
             for k in kinds:
                 ctx.count("edit:" + k)
-        elif r < 0.9:
+        elif r < 0.87:
             t1 = V.gen_value(rng, depth=3, width=4, strings=V.STR_POOL + ["a\nb", "a\nc\n"])
             vals, kinds = V.edit_script(rng, t1, rng.randint(1, 3))
             t2 = vals[-1]
             ctx.count("gen:edit_script")
             for k in kinds:
                 ctx.count("edit:" + k)
-        else:
+        elif r < 0.95:
             t1, t2 = V.gen_value(rng, 3, 4), V.gen_value(rng, 3, 4)
             ctx.count("gen:independent")
+        else:
+            t1, t2 = gen_set_alias_pair(rng)
+            ctx.count("gen:set_alias_pair")
         if rng.random() < 0.2:
             t2 = V.reorder_dicts(rng, t2)
             ctx.count("gen:t2_dicts_reordered")
@@ -201,35 +422,89 @@ def gen_pairs(ctx, n):
             if ok:
                 t1 = t1s
                 ctx.count("gen:shared_subobject_in_t1")
+        if rng.random() < 0.10 and isinstance(t1, (list, dict, tuple, set, frozenset)):
+            # ONE container object at two positions of t1 (or of t2, or of both), everything else fresh; the
+            # model is fed the unfolded tree, a failing case is replayed from a pickle (lessons of round 3)
+            form = rng.choice(["dict", "list", "tuple"])
+            side = rng.choice(["t1", "t1", "t2", "both"])
+
+            def wrap(x, y):
+                return {"p": x, "q": y} if form == "dict" else ([x, 0, y] if form == "list" else (x, y))
+            a2 = t1 if side in ("t1", "both") else copy.deepcopy(t1)
+            b2 = t2 if side in ("t2", "both") else copy.deepcopy(rng.choice([t1, t2]))
+            t1, t2 = wrap(t1, a2), wrap(t2, b2)
+            ctx.count("gen:one_container_object_at_two_positions:" + side)
         out.append((t1, t2))
     return out
 
 
-def one_pair(ctx, t1, t2, cases, corr=True):
+def marks_cases(ctx, t1, t2, cases, budget):
+    """removes_at / adds_at of Diff/FaithfulSource.v (what C04_K17_exact / C04_replay_*_levels speak about) on the
+    real difflib opcodes of every all-atom list pair of the inputs, against the Python reading the matchers use"""
+    for cp, ops in D.opcode_table(t1, t2):
+        if budget[0] <= 0:
+            return
+        a, b = t1, t2
+        for el in D.py_path(cp):
+            a, b = a[el], b[el]
+        if all(tag == "equal" for tag, *_ in ops):
+            continue
+        budget[0] -= 1
+        exp = [[py_removes_at(ops, i) for i in range(len(a))], [py_adds_at(ops, i) for i in range(len(b))]]
+        coq_ops = D.coq_list("mkOp %s %d %d %d %d" % (D.TAGS[o[0]], o[1], o[2], o[3], o[4]) for o in ops)
+        cases.append(("sx_c04_marks %s %s %s" % (coq_ops, D.coq_list(V.to_coq(x) for x in a), D.coq_list(V.to_coq(x) for x in b)),
+                      exp, {"a": repr(a), "b": repr(b), "ops": repr(ops), "what": "removes_at / adds_at"}))
+        ctx.count("marks_case")
+        if any(e1 and e2 for e1, e2 in zip(exp[0], exp[1])):
+            ctx.count("marks_case:some index both removed and added (K17 candidate)")
+
+
+def one_pair(ctx, t1, t2, cases, corr=True, mcases=None, budget=None, skip=None):
     from deepdiff import DeepDiff
+    in_guard = D.in_model_guard(t1, t2)
+    # pairs whose sets hold ==-aliased members go to the model with DeepDiff's run-wide table (valid everywhere)
+    tree_case, text_case, model_expr, out = ((D.tree_case, D.text_case, D.model_tree_expr, cases) if in_guard
+                                             else (D.memo_tree_case, D.memo_text_case, D.memo_tree_expr, mcases))
+    if corr and out is None:
+        corr = False
+        ctx.count("outside_model_guard")
+    if corr and not in_guard:
+        ctx.count("aliased_set_members:run_on_table_model")
+    thr_text = ctx.rng.choice(THRS)
     for thr in THRS:
         cfg = dict(zip=False, thr=thr)
-        if corr and D.in_model_guard(t1, t2):
-            case, r, unmod = D.tree_case(t1, t2, False, thr)
+        if corr:
+            case, r, unmod = tree_case(t1, t2, False, thr)
             if case is None:
                 ctx.fail(dict(t1=repr(t1), t2=repr(t2), clause="DeepDiff raised " + type(r).__name__, **cfg), "DeepDiff raised " + repr(r))
                 continue
-            cases.append(case)
+            out.append(case)
             ctx.count("pass1_won(opcodes recorded)" if r._iterable_opcodes else "pass2_or_single")
             if not unmod:
                 ctx.fail(dict(t1=repr(t1), t2=repr(t2), clause="inputs modified", **cfg), "DeepDiff modified an input")
-        elif corr:
-            ctx.count("outside_model_guard")
-        if corr and D.in_model_guard(t1, t2) and thr == ctx.rng.choice(THRS):
+            if thr == thr_text and budget is not None and budget[1] > 0 and (isinstance(t1, dict) or ctx.rng.random() < 0.25):
+                budget[1] -= 1
+                # the entry-local guard of C04_text_*_local on this run: Coq's count against the harness's reading of the tree
+                obs = case[1][0]
+                okc = sum(1 for e in obs if py_path_ok(e[1]))
+                out.append((case[0].replace("sx_tree (", "sx_c04_local_guard (", 1), [okc, len(obs)],
+                            {"t1": repr(t1), "t2": repr(t2), "thr": thr, "what": "local guard path_ok (ep1 e) of C04_text_*_local"}))
+                ctx.count("hyp:local guard: levels with path_ok", okc)
+                ctx.count("hyp:local guard: levels", len(obs))
+                if okc == len(obs) and not (py_keys_ok(t1) and py_keys_ok(t2)):
+                    ctx.count("hyp:local guard holds for every level although keys_ok fails")
+        if corr and thr == thr_text:
             # the TEXT view of the same run against Diff/TextView.v (what C04_text_* speak about), default alignment
             for verbose in (1, 2):
-                tcase, r, _ = D.text_case(t1, t2, False, thr, verbose)
+                tcase, r, _ = text_case(t1, t2, False, thr, verbose)
                 if tcase is not None:
-                    cases.append(tcase)
+                    out.append(tcase)
                     ctx.count("text_view_case:verbose%d" % verbose)
             g = py_keys_ok(t1) and py_keys_ok(t2)
             ctx.count("hyp:C04_text guard (wf, keys_ok) holds" if g else "hyp:C04_text guard fails")
-            cases.append(("sx_c04_guard %s %s" % (V.to_coq(t1), V.to_coq(t2)), g, {"t1": repr(t1), "t2": repr(t2), "what": "guard of C04_text_*"}))
+            out.append(("sx_c04_guard %s %s" % (V.to_coq(t1), V.to_coq(t2)), g, {"t1": repr(t1), "t2": repr(t2), "what": "guard of C04_text_*"}))
+            if budget is not None:
+                marks_cases(ctx, t1, t2, out, budget)
         for verbose in (1, 2):
             try:
                 res = DeepDiff(copy.deepcopy(t1), copy.deepcopy(t2), threshold_to_diff_deeper=thr, verbose_level=verbose)
@@ -237,7 +512,7 @@ def one_pair(ctx, t1, t2, cases, corr=True):
                 ctx.fail(dict(t1=repr(t1), t2=repr(t2), clause="DeepDiff raised " + type(e).__name__, **cfg), "DeepDiff raised " + repr(e))
                 continue
             ctx.seen((repr(t1), repr(t2), thr, verbose), nontrivial=bool(res))
-            check_entries(ctx, t1, t2, res, verbose, cfg)
+            check_entries(ctx, t1, t2, res, verbose, cfg, skip=skip)
 
 
 def replay_witnesses(ctx):
@@ -255,12 +530,17 @@ def replay_witnesses(ctx):
 
 def run(ctx):
     pairs = gen_pairs(ctx, 6000 if ctx.thorough else 900)
-    cases = []
+    cases, mcases = [], []
+    budget = [2500 if ctx.thorough else 200, 4000 if ctx.thorough else 300]
     for t1, t2 in pairs:
-        one_pair(ctx, t1, t2, cases)
+        one_pair(ctx, t1, t2, cases, mcases=mcases, budget=budget)
+    budget[1] = 10 ** 6           # every hostile-key pair gets its local-guard case
+    for t1, t2 in gen_hostile_pairs(ctx, 300 if ctx.thorough else 40):
+        one_pair(ctx, t1, t2, cases, mcases=mcases, budget=budget, skip=hostile_path)
     for c in cases[:3]:
         ctx.sample(c[2])
     ctx.coq_cases("c04", GUARD_HDR, cases, shard=150, label="default_mode_tree")
+    ctx.coq_cases("c04m", MEMO_HDR, mcases, shard=150, label="table_model_tree_and_text")
     replay_witnesses(ctx)
 
     # extension: class instances (attributes) inside the same models - beyond the property's stated domain,
@@ -272,7 +552,10 @@ def run(ctx):
 
 def replay(ctx, data):
     case = data.get("case", {})
-    if "t1" in case:
+    if "pickle" in case:
+        t1, t2 = pickle.loads(base64.b64decode(case["pickle"]))      # rebuilds objects shared between positions
+        one_pair(ctx, t1, t2, [], corr=False)
+    elif "t1" in case:
         t1, t2 = eval(case["t1"]), eval(case["t2"])
         one_pair(ctx, t1, t2, [], corr=False)
     else:
